@@ -21,14 +21,21 @@ def run():
              f"indented, trailing blanks, adjacent/separated tokens, keyword, tab indent, quoted string, illegal "
              f"character inside the line / in column 1, tokens separated by form feed / NEL+U+2028 / vertical tab+"
              f"lone CR+FS - blanks that str.splitlines breaks at but that are not line separators, tokens with "
-             f"optional ':' '!' parts) for the configurations plain, synonyms, keywords and one of "
+             f"optional ':' '!' parts, pairs WORD NUM with optional ':' '!' ',' parts before a blank / the end of the "
+             f"line) for the configurations plain, synonyms, keywords and one of "
              f"{ns} shapes (the former + span opener/closer on the same line, opener behind a token, closer before a "
              f"token, closer / opener in column 1) for the configuration with one span matcher; every text given as "
              f"one str and as a list of lines (the 0-line text only as the empty list, '' being the one-blank-line "
              f"text); per case: _Tokenizer.tokenize output and LLParser.parse trees (raw and cleaned; a fixed "
              f"grammar with nullable leaves, a nullable inner node, one to three consecutive trailing children that "
-             f"may match nothing (followed by skipped blanks / line break / comment) and a factorized production; for the span "
-             f"configuration once with the span token skipped and once as a leaf) against a hand-written reference "
+             f"may match nothing (followed by skipped blanks / line break / comment) and a factorized production, and a "
+             f"second grammar of the same language whose alternatives share a common prefix - of one terminal, of "
+             f"two terminals, starting with a non-terminal, one common prefix nested behind another - behind which "
+             f"the matched alternative goes on and ends with a symbol that matched nothing before skipped blanks / "
+             f"a line break / a comment / the end of the text; both grammars built with smart_factorization=True "
+             f"and =False; for the span configuration once with the span token skipped and once as a leaf; quick "
+             f"tier: the smart_factorization=False parsers only with the span token skipped and without cleanup, "
+             f"thorough tier: the whole product) against a hand-written reference "
              f"scanner of the same token language. non-trivial = the text has >= 2 lines or holds a span token",
         exhaustive=True,
         extra={'space_size': driver.space_size(b.tier), 'shapes': driver.ALL_SHAPES,
